@@ -3,6 +3,8 @@ package harness
 import (
 	"encoding/hex"
 	"fmt"
+	ethgotypes "github.com/ethereum/go-ethereum/core/types"
+	"github.com/ethereum/go-ethereum/crypto"
 	"math/big"
 	"os"
 	"strconv"
@@ -118,6 +120,99 @@ func newEthTree(baseTime uint64) *ethTree {
 }
 
 const ethName = "cli-eth"
+
+// refDifficulty: the Byzantium / EIP-100 difficulty formula written down independently of the code under test (block
+// numbers far below the bomb delay): parent + parent/2048 * max((2 if parent has uncles else 1) - dt/9, -99), at least 131072
+func refDifficulty(parentDiff *big.Int, parentHasUncles bool, dt uint64) *big.Int {
+	y := int64(1)
+	if parentHasUncles {
+		y = 2
+	}
+	y -= int64(dt / 9)
+	if y < -99 {
+		y = -99
+	}
+	adj := new(big.Int).Div(parentDiff, big.NewInt(2048))
+	adj.Mul(adj, big.NewInt(y))
+	d := new(big.Int).Add(parentDiff, adj)
+	if d.Cmp(big.NewInt(131072)) < 0 {
+		d = big.NewInt(131072)
+	}
+	return d
+}
+
+func init() { Drivers["ethpow"] = driveETHPow }
+
+// driveETHPow: one proof-of-work client (chain id 1) per case, created at a parent header of the case's class; the child
+// header abides by every other rule and carries the case's difficulty.  Recorded: the stage at which it is refused.
+func driveETHPow(t *testing.T, in, out string, seed int64) {
+	cases := ReadBehaviours(in)
+	tw := NewTraceWriter(out)
+	defer tw.Close()
+	l := NewLC()
+	c := l.C
+	noUncles := ethgotypes.EmptyUncleHash.Bytes()
+	someUncles := crypto.Keccak256([]byte("two uncles"))
+	for bi, b := range cases {
+		cs := b[0]
+		name := fmt.Sprintf("pow-%d", bi)
+		l.EnsureRelayer([]string{name})
+		pd := big.NewInt(131072)
+		if str(cs["parentDiff"]) == "large" {
+			pd = new(big.Int).Lsh(big.NewInt(1), 40)
+		}
+		base := uint64(c.Header.Time.Unix()) - 5000
+		root := make([]byte, 32)
+		copy(root, []byte(fmt.Sprintf("pow-root-%d", bi)))
+		uh := func(has bool) []byte {
+			if has {
+				return someUncles
+			}
+			return noUncles
+		}
+		parent := &ethtypes.Header{UncleHash: uh(cs["parentUncles"].(bool)), Coinbase: common.BytesToAddress([]byte("p")).Bytes(), Root: root, TxHash: make([]byte, 32),
+			ReceiptHash: make([]byte, 32), Bloom: make([]byte, 256), Difficulty: pd.Bytes(), Height: clienttypes.NewHeight(0, 100), GasLimit: 30_000_000, GasUsed: 15_000_000,
+			Time: base, Extra: []byte("parent"), MixDigest: make([]byte, 32), BaseFee: big.NewInt(7).Bytes(), ParentHash: make([]byte, 32)}
+		cst := &ethtypes.ClientState{Header: *parent, ChainId: 1, ContractAddress: common.HexToAddress("0x1234").Bytes(), TrustingPeriod: 1_000_000_000}
+		cons := &ethtypes.ConsensusState{Timestamp: parent.Time, Height: parent.Height, Root: parent.Root}
+		prop, err := clienttypes.NewCreateClientProposal("t", "d", name, cst, cons)
+		must(err)
+		if res, msg := c.ExecProposal(prop); res != "ok" {
+			t.Fatalf("create pow client: %s %s", res, msg)
+		}
+		dt := map[string]uint64{"1s": 1, "9s": 9, "18s": 18, "1000s": 1000}[str(cs["dt"])]
+		right := refDifficulty(pd, cs["parentUncles"].(bool), dt)
+		claim := new(big.Int).Set(right)
+		switch str(cs["claim"]) {
+		case "otheruncle":
+			claim = refDifficulty(pd, !cs["parentUncles"].(bool), dt)
+		case "plus1":
+			claim.Add(claim, big.NewInt(1))
+		case "parent":
+			claim.Set(pd)
+		}
+		ph := parent.Hash()
+		child := &ethtypes.Header{UncleHash: uh(cs["childUncles"].(bool)), Coinbase: common.BytesToAddress([]byte("c")).Bytes(), Root: root, TxHash: make([]byte, 32),
+			ReceiptHash: make([]byte, 32), Bloom: make([]byte, 256), Difficulty: claim.Bytes(), Height: clienttypes.NewHeight(0, 101), GasLimit: 30_000_000, GasUsed: 15_000_000,
+			Time: base + dt, Extra: []byte("child"), MixDigest: make([]byte, 32), BaseFee: big.NewInt(7).Bytes(), ParentHash: ph.Bytes()}
+		pre := c.Digest("xibc")
+		msg, err := clienttypes.NewMsgUpdateClient(name, child, c.Accts[lcRelayer].Acc)
+		must(err)
+		r := c.DeliverMsgs(c.Accts[lcRelayer], msg)
+		stage := "other"
+		switch {
+		case r.OK():
+			stage = "accepted"
+		case strings.Contains(r.Log, "invalid difficulty"):
+			stage = "difficulty"
+		case strings.Contains(r.Log, "header invalid") && !strings.Contains(r.Log, "SyncBlockHeader"):
+			// the bare "header invalid" error: the timestamp rule (which these headers satisfy) or the seal verification
+			stage = "seal"
+		}
+		tw.Emit(M{"ev": "Pow", "b": bi, "i": 0, "args": cs, "res": resOf(r), "msg": clip(r.Log), "stage": stage, "same": claim.Cmp(right) == 0,
+			"sig": fmt.Sprintf("Pow/%s/%s", str(cs["claim"]), stage), "dg": M{"pre": pre, "post": c.Digest("xibc")}})
+	}
+}
 
 func (t *ethTree) project(c *Chain) M {
 	pre := "clients/" + ethName + "/"
